@@ -29,8 +29,15 @@ import threading
 import attr
 import attrs
 
+import c03_ir
+
 ID = "C03"
-RULE = ("two rounds per case on the same operands (faults active / faults gone) + residue check; cases = (per-field cmp/eq/order argument (order: unset/True/False/key function of its own) x hash argument x "
+RULE = ("T3: one `script` case per generated class in the thorough tier (every 12th class in the quick tier) -- the real "
+        "source text of that class's generated __eq__ (literal lines + strict parse into the IR of Model/C03IR.lean + what its "
+        "helper globals are bound to) and of the shared __ne__ helper, compared syntactically with the model generator's "
+        "text/script and executed in Lean on a canonical operand family (all per-field outcome vectors over {T,F}, all four "
+        "outcomes for <=2 fields, one non-bool variant per field, the other ways of comparing a field answering the contrary; "
+        "same / identical / sub / super / foreign operands). Ordinary cases: two rounds per case on the same operands (faults active / faults gone) + residue check; cases = (per-field cmp/eq/order argument (order: unset/True/False/key function of its own) x hash argument x "
         "scripted outcome of raw, eq-keyed and order-keyed == (and, independently, of !=) x same-object flag x "
         "equal/different hash codes x hashable/unhashable values and key results x equal/different reprs x first-round "
         "fault (== raises / eq key function raises; 5 exception types incl. BaseException-only)) x right-operand kind x metaclass (plain type, or one whose __eq__/__ne__/both "
@@ -43,7 +50,15 @@ RULE = ("two rounds per case on the same operands (faults active / faults gone) 
         "per-field model dimensions for <=1 field (quick) / <=2 fields (thorough) under random class facts and "
         "histories, random above; only classes for which attrs generates equality are emitted; non-trivial = at "
         "least one eq-participating field; distinct = distinct JSON case")
+TRUSTED = [
+    "harness/c03_ir.py: the strict parser from the generated __eq__ source (read through inspect/linecache and checked to "
+    "compile to the code object that runs) and from the source of attr._make.__ne__ to the IR; Python's `ast`",
+    "Model/C03IR.lean execEq/execNe as the meaning of that IR over scripted comparison outcomes (and-chain, class guard, "
+    "key helpers by binding); the IR has no form for anything else -- other text is `unknown` and reported as a broken tie",
+]
 ASSUMPTIONS = [
+    "T3 identifies helper bindings by object identity with the harness's per-field key functions (one eq key and one order "
+    "key function object per field name); the helper-name prefix is read from the source of _make_eq_script with ast",
     "CPython's attribute lookup of __eq__/__ne__ along the MRO, object.__ne__ (derives from the resolved __eq__) and the "
     "==/!= dispatch (subclass-first, left, reflected, identity) are modelled as small functions and diff-tested here",
     "scripted comparison objects stand for arbitrary values: each == outcome is an input of the case; their __ne__ is "
@@ -201,15 +216,38 @@ class SU(S):
     KCLS, KOCLS = KU, KOU
 
 
-def key_fn(v):
-    if v.kfault is not None:
-        raise v.kfault()
-    return v.k
+def _mk_key(field):
+    def key_fn(v):
+        if v.kfault is not None:
+            raise v.kfault()
+        return v.k
+    key_fn.role, key_fn.field = "eq", field
+    return key_fn
 
 
-def okey_fn(v):
-    """the order key: a function of its own"""
-    return v.ok
+def _mk_okey(field):
+    def okey_fn(v):
+        """the order key: a function of its own"""
+        return v.ok
+    okey_fn.role, okey_fn.field = "order", field
+    return okey_fn
+
+
+# one eq key function and one order key function PER FIELD NAME (distinct objects doing the same), so that the
+# binding of every helper global of a generated method can be told apart (T3)
+KEY_FNS = {n: _mk_key(n) for n in NAMES}
+OKEY_FNS = {n: _mk_okey(n) for n in NAMES}
+
+
+def classify_helper(obj):
+    """what a helper global of a generated method is bound to, in the IR's terms"""
+    for n, fn in KEY_FNS.items():
+        if obj is fn:
+            return {"eqKey": {"field": n}}
+    for n, fn in OKEY_FNS.items():
+        if obj is fn:
+            return {"orderKey": {"field": n}}
+    return "other"
 
 
 def canon(v):
@@ -246,22 +284,26 @@ def decoy_key(v):
     return DecoyK()
 
 
-_ARG = {"t": True, "f": False, "key": key_fn}
+_ARG = {"t": True, "f": False, "key": KEY_FNS}       # "key": per field name
 _ARG_DECOY = {"t": True, "f": False, "key": decoy_key}
-_OARG = {"t": True, "f": False, "key": okey_fn}
+_OARG = {"t": True, "f": False, "key": OKEY_FNS}
 _CLASS_CACHE: dict = {}
 _BUILDS = [0]
 
 
 def _field_kwargs(f, arg=None):
     arg = arg or _ARG
+
+    def pick(table, a):
+        v = table[a]
+        return v[f["name"]] if isinstance(v, dict) else v
     kw = {}
     if f["cmp"] != "unset":
-        kw["cmp"] = arg[f["cmp"]]
+        kw["cmp"] = pick(arg, f["cmp"])
     if f["eq"] != "unset":
-        kw["eq"] = arg[f["eq"]]
+        kw["eq"] = pick(arg, f["eq"])
     if f.get("order", "unset") != "unset":
-        kw["order"] = _OARG[f["order"]]
+        kw["order"] = pick(_OARG, f["order"])
     h = f.get("hash", "unset")
     if h != "unset":
         kw["hash"] = h == "t"
@@ -480,9 +522,9 @@ def build(case):
     if got is not None:
         return got
     _BUILDS[0] += 1
-    if len(_CLASS_CACHE) > 3000:
-        _CLASS_CACHE.clear()
     if _BUILDS[0] % 150 == 0:
+        # together: a cached class must keep the linecache entry its generated source is read from (T3)
+        _CLASS_CACHE.clear()
         import linecache
         for k in [k for k in linecache.cache if k.startswith("<attrs generated")]:
             del linecache.cache[k]
@@ -580,6 +622,8 @@ def _make(cls, root, payload, vals):
 
 
 def observe(case):
+    if is_script(case):
+        return observe_script(case)
     cfg = case.get("cfg", {})
     Root, Base, C, D, F, base_names = build(case)
     fs = case["fields"]
@@ -740,6 +784,23 @@ def _residue(before, after):
     return out
 
 
+# ------------------------------------------------------------------------------------------ T3: script cases
+
+def is_script(case):
+    return case.get("kind") == "script"
+
+
+def make_script_case(case):
+    """T3: the class of `case` alone; the observation is the parsed source of its generated `__eq__` (+ `__ne__`)"""
+    return {"kind": "script", "fields": case["fields"], "keyPrefix": c03_ir.key_prefix()[0],
+            "rhs": case["rhs"], "cfg": case["cfg"], "hist": dict(BASE_HIST)}
+
+
+def observe_script(case):
+    C = build(case)[2]
+    return c03_ir.observe(C, classify_helper)
+
+
 def _participates(f):
     return not (f["eq"] == "f" or f["cmp"] == "f")
 
@@ -749,10 +810,17 @@ def nontrivial(case, model):
 
 
 def dist(case, obs):
+    if is_script(case):
+        body = (obs.get("eq") or {}).get("body", []) if isinstance(obs, dict) else []
+        return {"kind": "script", "script_lines": len(obs.get("text", [])) if isinstance(obs, dict) else -1,
+                "script_unknown": sum(1 for st in body if isinstance(st, dict) and "unknown" in st),
+                "script_api": case.get("cfg", {}).get("api"), "script_n_fields": len(case["fields"]),
+                "script_helpers": len((obs.get("eq") or {}).get("helpers", [])) if isinstance(obs, dict) else -1}
     cfg = case.get("cfg", {})
     h = case.get("hist") or {}
     own = cfg.get("own") or {}
     return {
+        "kind": "operands",
         "n_fields": len(case["fields"]),
         "rhs": case["rhs"],
         "api": cfg.get("api"),
@@ -909,6 +977,15 @@ def _field_space(reduced):
 
 
 def gen_cases(tier, rng):
+    """ordinary cases, plus T3 script cases: one per generated class in the thorough tier, every 12th in the quick tier"""
+    every = 1 if tier == "thorough" else 12
+    for i, c in enumerate(_gen_operand_cases(tier, rng)):
+        yield c
+        if i % every == 0:
+            yield make_script_case(c)
+
+
+def _gen_operand_cases(tier, rng):
     # exhaustive block over the per-field model dimensions
     kmax = 1 if tier == "quick" else 2
     yield _case(rng, [], "same")
@@ -920,7 +997,7 @@ def gen_cases(tier, rng):
             for rhs in RHS:
                 yield _case(rng, [dict(f, name=NAMES[i]) for i, f in enumerate(combo)], rhs)
     # random block (the time budget ends it in the quick tier)
-    n = 60000 if tier == "quick" else 400000
+    n = 60000 if tier == "quick" else 300000
     full = list(_field_space(reduced=False))
     for _ in range(n):
         k = rng.choice([1, 2, 2, 3, 3, 4])
@@ -953,6 +1030,11 @@ def _emit(c):
 
 
 def shrink(case):
+    if is_script(case):
+        for c in shrink(_finish(_strip(case))):
+            if (c["fields"], c["cfg"]) != (case["fields"], case["cfg"]):
+                yield make_script_case(c)
+        return
     base = _strip(case)
     fs, cfg, hist = base["fields"], base["cfg"], base["hist"]
     for i in range(len(fs)):
@@ -981,6 +1063,18 @@ def shrink(case):
 
 
 def neighbours(case, rng):
+    if is_script(case):
+        # the text differs from the model's: look for operands of that very class on which the behaviour differs
+        base = _strip(case)
+        for _ in range(40):
+            fs = []
+            for f in base["fields"]:
+                g = _dress(rng, dict(f, raw=rng.choice(OUTCOMES), keyed=rng.choice(OUTCOMES), sameObj=rng.random() < 0.3))
+                g["hash"], g["unhashable"] = f.get("hash", "unset"), False
+                fs.append(g)
+            rhs = rng.choice(RHS + ["same", "same", "same"])
+            yield from _emit(dict(base, fields=fs, rhs=rhs, hist=dict(BASE_HIST)))
+        return
     base = _strip(case)
     for rhs in RHS:
         for _ in range(3):
@@ -991,7 +1085,13 @@ def neighbours(case, rng):
     yield from shrink(case)
 
 
-LEVEL_TEXT = ("Lean theorems over arbitrary field lists, arbitrary ancestor chains and arbitrary hashing histories "
+LEVEL_TEXT = ("T3 (thorough tier: every sampled class; quick tier: a sample): the literal text of the generated __eq__ is checked to be "
+              "exactly `genText` of the field list, its parse exactly `genEq` with every key helper bound to that field's eq key "
+              "and NotImplemented to the singleton, the __ne__ in the class dict to be the shared helper and that helper's source "
+              "exactly `genNe`; `C03_script_correct` proves that executing `genEq fields` is the model's generated __eq__ for every "
+              "field list, operand environment and operand class, and `C03_script_transfer` that agreement makes every round of that "
+              "text the model's round -- so on those classes the theorems hold for all operands of the text that runs, not only the "
+              "sampled ones. The observed scripts are also executed in Lean on a canonical operand family against C03's per-round spec. Lean theorems over arbitrary field lists, arbitrary ancestor chains and arbitrary hashing histories "
               "(C03_eq_iff, C03_ne_negation, C03_other_class_notimpl, C03_other_class_identity, C03_nonparticipating_irrelevant, "
               "C03_history_irrelevant, C03_order_key_irrelevant (a per-field order= key never is an eq key), "
               "C03_class_identity_not_equality (metaclass ==/!= between classes never matters), C03_fault_propagates / "
